@@ -49,6 +49,7 @@ J gen(uint64_t seed, bool thorough) {
   ec.data_seed = r.next() >> 12; ec.noise_seed = r.next() >> 12;
   ec.dt = 1.0; ec.temperature = 300.0; ec.forces_late = r.chance(0.4);
   ec.traj_amp = r.uniform(0.5, 1.3);
+  ec.setup_each_run = r.chance(0.5);   // NAMD-like or LAMMPS-like run protocol
   TrajModel m; m.build(ec.data_seed, ec.natoms, ec.traj_amp, ec.force_amp, false);
   long T = 60;
   J plan = J::obj();
